@@ -48,6 +48,11 @@ Bools       == {"force-file-write", "require-template-schema-exists", "all", "re
 Regexes     == {"include-interface-regex", "exclude-interface-regex"}
 EnvCapable  == FreeScalars \cup Bools \cup Regexes \cup {"formatter", "log-level"}
 AllParams   == PerMock \cup PerFile \cup PerPackage \cup TopOnly
+\* template-data seen through a BUILT-IN template: the keys the matryer template documents (with-resets,
+\* stub-impl, skip-ensure are per-mock switches) -- a second focus on the parameter template-data
+TDMatryer   == "template-data@matryer"
+FocusParams == AllParams \cup {TDMatryer}
+RealParam(p) == IF p = TDMatryer THEN "template-data" ELSE p
 
 ParamSeq == <<"dir", "filename", "pkgname", "structname", "template-data", "replace-type", "template", "template-schema",
               "require-template-schema-exists", "formatter", "force-file-write", "all", "include-interface-regex",
@@ -125,6 +130,9 @@ ValueAt(p, n, h, profile) ==
     [] p = "template-data" ->
          CASE profile = "mock"     -> TDRich(n, h % NRich)
            [] profile = "schema"   -> M([sid |-> S(n)])
+           [] profile = "matryer"  -> M(("with-resets" :> S(IF h % 2 = 1 THEN "#true" ELSE "#false"))
+                                        @@ ("stub-impl" :> S(IF h % 2 = 1 THEN "#true" ELSE "#false"))
+                                        @@ ("skip-ensure" :> S(IF h % 2 = 0 THEN "#true" ELSE "#false")))
            [] OTHER                -> M(("mock-build-tags") :> S(n))
     [] p = "replace-type" -> RTVal(n, h % NRT)
     [] OTHER -> n
@@ -135,7 +143,7 @@ ChainOf(p) ==
   CASE p = "log-level" -> <<"env", "root", "flag">>
     [] p = "exclude-subpkg-regex" -> <<"root", "p1">>
     [] p \in PerPackage -> <<"env", "root", "p1">>
-    [] p \in MapParams -> <<"root", "p1", "p1A", "p1A1">>
+    [] p \in MapParams \cup {TDMatryer} -> <<"root", "p1", "p1A", "p1A1">>
     [] OTHER -> <<"env", "root", "p1", "p1A", "p1A1">>
 
 SiblingOf(n) ==
@@ -143,6 +151,7 @@ SiblingOf(n) ==
 
 ProfileOf(p) ==
   CASE p \in {"template"} -> "template"
+    [] p = TDMatryer -> "matryer"
     [] p \in {"template-schema", "require-template-schema-exists"} -> "schema"
     [] p \in PerPackage -> "select"
     [] p = "log-level" -> "sources"
@@ -153,11 +162,11 @@ Pow(b, e) == IF e = 0 THEN 1 ELSE IF e = 1 THEN b ELSE IF e = 2 THEN b * b ELSE 
 Digit(v, b, j) == (v \div Pow(b, j)) % b          \* j-th digit (from 0) of v in base b
 RankIn(ch, SS, n) == Cardinality({i \in 1..Len(ch) : ch[i] \in SS /\ i < (CHOOSE x \in 1..Len(ch) : ch[x] = n)})
 
-Base(p) == IF p \in Bools THEN 2 ELSE IF p \in {"formatter", "log-level"} THEN 3 ELSE 1
+Base(p) == IF p \in Bools \cup {TDMatryer} THEN 2 ELSE IF p \in {"formatter", "log-level"} THEN 3 ELSE 1
 \* how many value assignments are enumerated for the levels in SS
 NVar(p, SS) ==
   LET c == Cardinality(SS) IN
-  CASE p \in Bools \/ p \in {"formatter", "log-level"} ->
+  CASE p \in Bools \/ p \in {"formatter", "log-level", TDMatryer} ->
          IF Tier = "thorough" THEN (IF Pow(Base(p), c) > 27 THEN 27 ELSE Pow(Base(p), c)) ELSE IF c = 0 THEN 1 ELSE 2
     [] p \in MapParams -> IF Tier = "thorough" THEN 4 ELSE 2
     [] p \in Regexes \/ p = "exclude-subpkg-regex" -> IF Tier = "thorough" THEN 3 ELSE 2
@@ -179,7 +188,7 @@ ChainH(dd, n) ==
 
 ShareModes(p) ==
   IF p \in PerFile \cup {"pkgname"} THEN {"none", "entries", "package"}
-  ELSE IF p \in {"structname", "template-data", "replace-type"} THEN {"none", "entries"} ELSE {"none"}
+  ELSE IF p \in {"structname", "template-data", "replace-type", TDMatryer} THEN {"none", "entries"} ELSE {"none"}
 
 \* levels that may be in S under a share mode (mocks sharing a file must agree on per-file parameters and pkgname)
 SAllowed(p, share) ==
@@ -204,12 +213,13 @@ ChainDescs ==
                  ELSE {x \in SibModes(p) \cup (IF \E n \in SS : SiblingOf(n) # {} THEN {} ELSE {FALSE}) : (x => \E n \in SS : SiblingOf(n) # {})} }
         : SS \in SubsetsOf(p, sh) }
         : sh \in ShareModes(p) }
-        : p \in AllParams }
+        : p \in FocusParams }
 
 ChainOK(dd) == dd.share = "none" \/ Tier = "thorough" \/ dd.var = 0
 
 \* the carrier keeps the output files of all mocks apart (unless the world is about sharing)
 Carrier(dd) == IF dd.param = "filename" THEN "dir" ELSE "filename"
+Focus(dd) == RealParam(dd.param)
 CarrierNodes(dd) ==
   CASE dd.share = "package" -> {}
     [] dd.share = "entries" -> {"root"}
@@ -224,6 +234,8 @@ Bg(profile, focus, rec) ==
          [root |-> [all |-> TRUE] @@ ("require-template-schema-exists" :> FALSE), p1 |-> IF rec THEN [recursive |-> TRUE] ELSE << >>]
     [] profile = "schema" ->
          [root |-> [template |-> "root", all |-> TRUE]]
+    [] profile = "matryer" ->
+         [root |-> [template |-> "matryer", all |-> TRUE], p1 |-> IF rec THEN [recursive |-> TRUE] ELSE << >>]
     [] profile = "sources" ->
          [root |-> [template |-> "root", all |-> TRUE] @@ ("require-template-schema-exists" :> FALSE)
                    @@ ("include-interface-regex" :> {"A"})]      \* all + include: the run logs a warning
@@ -244,15 +256,15 @@ ChainFocusNodes(dd) == dd.S \cup (IF dd.sib THEN UNION {SiblingOf(n) : n \in dd.
 
 ChainIsSet(dd, n, p) ==
   LET bg == Bg(ProfileOf(dd.param), dd.param, "p1" \in dd.S) IN
-  \/ (p = dd.param /\ n \in ChainFocusNodes(dd))
-  \/ (p = Carrier(dd) /\ n \in CarrierNodes(dd) /\ p # dd.param)
-  \/ (p = "structname" /\ dd.share # "none" /\ KindOf(n) = "entry" /\ p # dd.param)    \* tell the mocks of a shared file apart
+  \/ (p = Focus(dd) /\ n \in ChainFocusNodes(dd))
+  \/ (p = Carrier(dd) /\ n \in CarrierNodes(dd) /\ p # Focus(dd))
+  \/ (p = "structname" /\ dd.share # "none" /\ KindOf(n) = "entry" /\ p # Focus(dd))    \* tell the mocks of a shared file apart
   \/ (p = "template-data" /\ ProfileOf(dd.param) = "schema" /\ n \in SidNodes)
   \/ BgSet(bg, n, p)
 
 ChainValue(dd, n, p) ==
   LET bg == Bg(ProfileOf(dd.param), dd.param, "p1" \in dd.S) IN
-  IF p = dd.param /\ n \in ChainFocusNodes(dd) THEN ValueAt(p, n, ChainH(dd, n), ProfileOf(dd.param))
+  IF p = Focus(dd) /\ n \in ChainFocusNodes(dd) THEN ValueAt(p, n, ChainH(dd, n), ProfileOf(dd.param))
   ELSE IF BgSet(bg, n, p) THEN bg[n][p]
   ELSE ValueAt(p, n, 0, ProfileOf(dd.param))
 
@@ -306,14 +318,16 @@ SameFile(cfg, m1, m2) ==
      /\ d1 = d2 /\ (d1 = DEFAULT \/ m1.letter = m2.letter)
      /\ f1 = f2 /\ (f1 = DEFAULT \/ m1.letter = m2.letter)
 
-BuiltinSafe(v) == v.t = "m" /\ DOMAIN v.kv \subseteq {"mock-build-tags"} /\ \A k \in DOMAIN v.kv : v.kv[k].t = "s"
+BuiltinKeys(t) == IF t = "matryer" THEN {"mock-build-tags", "with-resets", "stub-impl", "skip-ensure"} ELSE {"mock-build-tags"}
+BuiltinSafe(v, t) == v.t = "m" /\ DOMAIN v.kv \subseteq BuiltinKeys(t) /\ \A k \in DOMAIN v.kv : v.kv[k].t = "s"
 
 WellFormed(cfg) ==
   LET ms == {m \in Mocks(cfg) : m.pkg \notin Unchecked} IN
   /\ \A m1, m2 \in ms : SameFile(cfg, m1, m2) =>
         \A p \in PerFile \cup {"pkgname"} : EffScalar(cfg, p, m1.from) = EffScalar(cfg, p, m2.from)
   /\ \A m \in Mocks(cfg) : ~IsProbe(EffScalar(cfg, "template", m.from)) =>
-        BuiltinSafe(EffMap(cfg, "template-data", m.from)) /\ BuiltinSafe(FileData(cfg, m))
+        /\ BuiltinSafe(EffMap(cfg, "template-data", m.from), EffScalar(cfg, "template", m.from))
+        /\ BuiltinSafe(FileData(cfg, m), EffScalar(cfg, "template", m.from))
   \* the unchecked package never shares a file with a checked one (own package => own directory) and
   \* must itself be runnable: same agreement inside it
   /\ \A m1, m2 \in Mocks(cfg) \ ms : SameFile(cfg, m1, m2) =>
